@@ -35,10 +35,11 @@ def charsMeaning : List QEv → Option Bytes
   | .pi :: r => charsMeaning r
   | _ => none
 
-/-- how s3s reads the content of a string element `<name>run</name>`: `String::deserialize_content` followed by the
-`expect_end(name)` of the enclosing `element` / `for_each_element` -/
-def readStringElement (X : Ext) (name : Bytes) (evs : List Ev) : R Val :=
-  match decode X .str evs with
+/-- how s3s reads the content of a string element `<name …>run</name>`: `String::deserialize_content` followed by
+the `expect_end(name)` of the enclosing `element` / `for_each_element`; `a` = the attribute bytes of the start tag
+(a string never looks at them) -/
+def readStringElement (X : Ext) (name a : Bytes) (evs : List Ev) : R Val :=
+  match decode X .str a evs with
   | .error e => .error e
   | .ok (v, r) =>
     match expectEnd name r with
